@@ -1,6 +1,7 @@
 package main
 
 import (
+	"github.com/olive-io/bpmn/v2/pkg/tracing"
 	"fmt"
 	bpmn "github.com/olive-io/bpmn/v2"
 	"math/rand"
@@ -292,6 +293,53 @@ func runC14(env *Env) {
 			j = len(items)
 		}
 		env.WriteCases(rep, fmt.Sprintf("_%d", k), "Corr.C14corr", "nat * nat * list nat * list nat", items[i:j], "c14_mismatches")
+	}
+	// engine level: a burst of events, longer than a catch event's inbox, with a slow trace subscriber: the node sees the
+	// whole history — a parallel-multiple catch event {sA, sB} fires once after sA x 8, sB (every definition matched);
+	// a plain multiple one fires on its first matching event after 8 non-matching ones
+	for _, par := range []bool{true, false} {
+		for r := 0; r < 6 && !rep.Saturated(); r++ {
+			cs := fmt.Sprintf("catch event {sA, sB} parallelMultiple=%v, burst of 8 events then the deciding one, slow subscriber (round %d)", par, r)
+			env.Current(cs)
+			p := &Prog{}
+			p.Node("start", "start")
+			c := p.Node("catch", "C")
+			c.Attrs = fmt.Sprintf(`parallelMultiple="%v"`, par)
+			c.Inner = `<bpmn:signalEventDefinition id="dA" signalRef="sA"/><bpmn:signalEventDefinition id="dB" signalRef="sB"/>`
+			p.Node("task", "B0")
+			p.Node("end", "end")
+			p.Flow("start", "C", "")
+			p.Flow("C", "B0", "")
+			p.Flow("B0", "end", "")
+			defs, err := ParseDefs(p.XML(`<bpmn:signal id="sA" name="sA"/><bpmn:signal id="sB" name="sB"/><bpmn:signal id="sN" name="sN"/>`))
+			must(err)
+			in, err := StartInst(defs, InstOpt{Buf: 1, Raw: func(tracing.ITrace) { time.Sleep(300 * time.Microsecond) }})
+			must(err)
+			rep.Evaluations++
+			rep.Nontrivial++
+			rep.Count("engine_burst")
+			if !in.WaitUntil(tmoStep, func(l []Ev) bool { return countEv(l, "listening", "C") >= 1 }) {
+				rep.Violate("C14-engine", cs, "the catch event never listened; log: "+logString(in.Log()))
+				in.Close()
+				continue
+			}
+			first, last := "sA", "sB"
+			if !par {
+				first, last = "sN", "sA"
+			}
+			for i := 0; i < 8; i++ {
+				in.Signal(first)
+			}
+			in.Signal(last)
+			if !in.WaitUntil(tmoStep, func(l []Ev) bool { return countEv(l, "task", "B0") >= 1 }) {
+				rep.Violate("C14-engine", cs, fmt.Sprintf("after %s x 8, %s the catch event did not fire; log: %s", first, last, logString(in.Log())))
+			}
+			time.Sleep(5 * time.Millisecond)
+			if n := countEv(in.Log(), "task", "B0"); n > 1 {
+				rep.Violate("C14-engine", cs, fmt.Sprintf("the catch event fired %d times; log: %s", n, logString(in.Log())))
+			}
+			in.Close()
+		}
 	}
 	// engine level: a parallel-multiple catch event in a loop. An event delivered while no token listens (between
 	// the firing and the token's return) must not count towards the next firing.
